@@ -95,6 +95,15 @@ func (s *gkvp) SerializeValueTo(pc *PrintCtx) {
 }
 
 func (s Attrs) SerializeValueTo(pc *PrintCtx) {
+	if pc.jsonMode {
+		// a group is a nested JSON object
+		pc.pcAppendByte('{')
+		pc.skipSep = true
+		_ = serializeAttrs(pc, s)
+		pc.skipSep = false
+		pc.pcAppendByte('}')
+		return
+	}
 	_ = serializeAttrs(pc, s)
 }
 
@@ -170,7 +179,11 @@ func serializeAttrs(pc *PrintCtx, kvps Attrs) (err error) { //nolint:revive
 		}
 
 		if pc.noColor {
-			pc.pcAppendComma()
+			if pc.skipSep {
+				pc.skipSep = false
+			} else {
+				pc.pcAppendComma()
+			}
 		} else {
 			pc.pcAppendByte(' ')
 			ct.echoColorAndBg(pc, pc.clr, pc.bg)
